@@ -1,6 +1,6 @@
 #!/bin/bash
 # try_seed.sh <patch> <ID> [more IDs]: apply a seeded change to /repo, run the checks, undo it straight afterwards.
-P=$1; shift
+P=$(realpath $1); shift
 git -C /repo apply "$P" || exit 2
 for id in "$@"; do
   /verif/check $id --no-evidence 2>&1 | grep -v "^RULE.* ok$" | head -12
